@@ -157,13 +157,13 @@ def oracle(case):
     w = case['width']
     h = values.height(case['v'])
     base = values.pp(v, width=w, ribbon_width=w)
-    if base.exc is not None or base.warnings:
-        return core.viol('unlimited-print-failed', repr(base.exc or base.warnings[0])[:300])
+    if base.exc is not None or base.fallback_warnings():
+        return core.viol('unlimited-print-failed', repr(base.exc or base.fallback_warnings()[0])[:300])
     p = values.pp(v, width=w, ribbon_width=w, depth=d)
     if p.exc is not None:
         return core.viol('pformat-raised', repr(p.exc))
-    if p.warnings:
-        return core.viol('warning', p.warnings[0][:300])
+    if p.fallback_warnings():
+        return core.viol('printer-failed', p.fallback_warnings()[0][:300])
     labels = []
     if d is None or d > h:
         if p.text != base.text:
